@@ -3,10 +3,24 @@
    received the instructions it depends on, and is reported as blocked, not mis-decoded, before that - for every table
    capacity, blocked-stream limit, workload and delivery schedule; the table never exceeds its capacity and an entry
    still referenced by an unacknowledged section is never evicted. *)
-From H3V Require Import Base.Bytes Gen.GenQpack Model.Vas Model.DynTable Model.QInstr Model.QEncoder Model.QDecoder Model.QSystem
+From H3V Require Import Base.Bytes Gen.GenQpack Gen.GenStatic Model.Vas Model.DynTable Model.QInstr Model.QEncoder Model.QDecoder Model.QSystem
   Proofs.VasProofs Proofs.QPrefixProofs Proofs.AMapLemmas Proofs.DynTableProofs Proofs.QEncoderProofs Proofs.QSystemProofs
   Proofs.QSimulationProofs Proofs.QDenotationProofs Proofs.QAgreementProofs Proofs.QAccountingProofs
   Model.QWire Model.QBytes Proofs.QBytesProofs.
+
+(* ------------------------------------------------------------------ the source facts the model is built from *)
+(* every constant and comparison operator that translate/gen_qpack.py reads from field.rs / dynamic.rs / block.rs / stream.rs
+   and that Model/*.v uses: a changed value in the source breaks this proof (all other source text of the seven QPACK files
+   is compared whole with the recorded text by the translators) *)
+Theorem C20_source_facts :
+  (q_overhead, q_cap_max, q_blocked_streams_max, q_max_entries_div_new, q_eic_mul, q_eic_add, q_max_entries_div_get, q_increment_limit)
+    = (32, 1073741823, 65535, 32, 2, 1, 32, 64) /\
+  (q_set_max_blocked_cmp, q_set_max_size_cmp, q_blocked_gate_cmp, q_can_free_toolarge_cmp, q_can_free_room_cmp,
+   q_can_free_loop_cmp, q_can_free_final_cmp, q_register_blocked_cmp)
+    = (CGe, CGt, CGe, CGt, CGe, CLe, CLe, CLe) /\
+  GenStatic.static_declared_len = 99 /\ length GenStatic.static_rows = 99%nat /\
+  length GenStatic.static_find_arms = 99%nat /\ length GenStatic.static_find_name_arms = 52%nat.
+Proof. repeat split; reflexivity. Qed.
 
 (* ------------------------------------------------------------------ T1: capacity *)
 (* the table invariant dt_ok (size accounting curr_size = sum of entry sizes <= max_size, index space, both look-up maps
@@ -253,6 +267,7 @@ Example C20_eviction_inhabited :
   end = (1, [([98], [49])]).
 Proof. vm_compute. reflexivity. Qed.
 
+Print Assumptions C20_source_facts.
 Print Assumptions C20_table_invariant_initial.
 Print Assumptions C20_table_invariant_encode.
 Print Assumptions C20_table_invariant_feedback.
